@@ -25,6 +25,10 @@ def classify(r):
     prev = [e for e in r["raw"][:r["index"]] if e.get("ev") in ("Rollback", "CommitEnd", "RemoveStore", "OpError")]
     last = prev[-1] if prev else {}
     after = "%s%s" % (last.get("ev", "start"), "" if last.get("ev") != "CommitEnd" else (":ok" if last.get("ok") else ":failed"))
+    if last.get("ev") == "CommitEnd" and not last.get("ok"):
+        arm = [e for e in r["raw"][:r["index"]] if e.get("ev") == "Arm" and e.get("t") == last.get("t")]
+        if arm:   # the commit failed on an injected backend fault
+            after += "(injected%s)" % arm[-1].get("note", "").rstrip()
     what = "event %d not explained by the catalogue model: %s" % (r["index"], json.dumps(raw)[:300])
     if ev == "Observe":
         if raw.get("exists") and not raw.get("items") and raw.get("count") == 0:
